@@ -98,7 +98,7 @@ def body(case, acc):
             gs = {T.norm_stmt(s) for f in frames for s in f}
             ws = {tuple(tuple(t) for t in s) for s in want_stmts}
             if gs != ws:
-                return Violation("C04:grouped-differs", f"rdflib parse_jelly_grouped: missing {sorted(ws - gs)[:2]!r} "
+                return Violation("C04:grouped-differs", f"rdflib parse_jelly_grouped: missing {sorted(ws - gs, key=repr)[:2]!r} "
                                  f"extra {sorted(gs - ws, key=repr)[:2]!r}", case)
         # to graph
         try:
@@ -120,7 +120,7 @@ def body(case, acc):
             gs = {T.norm_stmt(s) for s in pyj.sink_events(sink, integ)}
             ws = {tuple(tuple(t) for t in s) for s in want_stmts}
             if gs != ws:
-                return Violation("C04:to-graph-differs", f"rdflib parse_jelly_to_graph: missing {sorted(ws - gs)[:2]!r} "
+                return Violation("C04:to-graph-differs", f"rdflib parse_jelly_to_graph: missing {sorted(ws - gs, key=repr)[:2]!r} "
                                  f"extra {sorted(gs - ws, key=repr)[:2]!r}", case)
     return None
 
